@@ -21,7 +21,7 @@ theorem encodeEntry_length (c : Cfg) (k : RelKind) (e : RelocEntry) :
     (encodeEntry c k e).length = entSize c.cls k := encodeRaw_length ..
 
 theorem encodeTable_length (c : Cfg) (k : RelKind) (es : List RelocEntry) :
-    (encodeTable c k es).length = es.length * entSize c.cls k :=
+    (encodeRelTable c k es).length = es.length * entSize c.cls k :=
   flatMap_length _ _ (encodeEntry_length c k) es
 
 /-- decoding a record decodes its three members -/
@@ -459,9 +459,9 @@ theorem add_refines (c : Cls) (k : RelKind) (enc : Enc) (b : SecBuf) (hI : b.Inv
 theorem adds_refine (c : Cls) (k : RelKind) (enc : Enc) (b : SecBuf) (hI : b.Inv) (hc : b.cls = c)
     (es : List Entry) (hb : SecBuf.Bound c (b.content.length + es.length * Spec.entSize c k)) :
     ∃ b', addEntries k enc b es = .ok b' ∧ b'.Inv ∧ b'.cls = c ∧ b'.stype = b.stype ∧ b'.entSize = b.entSize ∧
-      b'.content = b.content ++ encodeTable ⟨c, enc⟩ k (es.map Entry.toSpec) := by
+      b'.content = b.content ++ encodeRelTable ⟨c, enc⟩ k (es.map Entry.toSpec) := by
   induction es generalizing b with
-  | nil => exact ⟨b, rfl, hI, hc, rfl, rfl, by simp [encodeTable]⟩
+  | nil => exact ⟨b, rfl, hI, hc, rfl, rfl, by simp [encodeRelTable]⟩
   | cons e es ih =>
     simp only [List.length_cons, Nat.succ_mul] at hb
     obtain ⟨b1, e1, i1, c1, t1, s1, v1⟩ := add_refines c k enc b hI hc e (bound_mono hb (by omega))
@@ -469,18 +469,18 @@ theorem adds_refine (c : Cls) (k : RelKind) (enc : Enc) (b : SecBuf) (hI : b.Inv
       rw [v1, List.length_append, encodeEntry_length]; exact bound_mono hb (by simp only []; omega))
     refine ⟨b2, ?_, i2, c2, by rw [t2, t1], by rw [s2, s1], ?_⟩
     · simp only [addEntries, e1, bind, Except.bind]; exact e2
-    · rw [v2, v1]; simp [encodeTable, List.append_assoc]
+    · rw [v2, v1]; simp [encodeRelTable, List.append_assoc]
 
 /-- **rel_bytes** : a table built by any sequence of adds on top of a table `es0` is, byte for byte, the
     gABI encoding of all entries in order (ABI packing, declared byte order) -/
 theorem rel_bytes (c : Cls) (k : RelKind) (enc : Enc) (b : SecBuf) (hI : b.Inv) (hc : b.cls = c)
-    (es0 : List RelocEntry) (h0 : b.content = encodeTable ⟨c, enc⟩ k es0) (es : List Entry)
+    (es0 : List RelocEntry) (h0 : b.content = encodeRelTable ⟨c, enc⟩ k es0) (es : List Entry)
     (hb : SecBuf.Bound c ((es0.length + es.length) * Spec.entSize c k)) :
     ∃ b', addEntries k enc b es = .ok b' ∧ b'.Inv ∧ b'.cls = c ∧ b'.stype = b.stype ∧ b'.entSize = b.entSize ∧
-      b'.content = encodeTable ⟨c, enc⟩ k (es0 ++ es.map Entry.toSpec) := by
+      b'.content = encodeRelTable ⟨c, enc⟩ k (es0 ++ es.map Entry.toSpec) := by
   obtain ⟨b', e, i, c', t, s, v⟩ := adds_refine c k enc b hI hc es (by
     rw [h0, encodeTable_length, ← Nat.add_mul]; exact hb)
-  exact ⟨b', e, i, c', t, s, by rw [v, h0]; simp [encodeTable]⟩
+  exact ⟨b', e, i, c', t, s, by rw [v, h0]; simp [encodeRelTable]⟩
 
 /-! ### round trip -/
 
@@ -538,11 +538,11 @@ theorem entSize_pos (c : Cls) (k : RelKind) : 0 < Spec.entSize c k := by
     type unchanged (ranges `Fits`), addend as `normEntry` says — for every k. -/
 theorem roundtrip (c : Cls) (k : RelKind) (enc : Enc) (b : SecBuf) (hR : RelocSec c k b)
     (hE : b.entSize.toNat = Spec.entSize c k)
-    (es0 : List RelocEntry) (h0 : b.content = encodeTable ⟨c, enc⟩ k es0) (es : List Entry)
+    (es0 : List RelocEntry) (h0 : b.content = encodeRelTable ⟨c, enc⟩ k es0) (es : List Entry)
     (hfit : ∀ e ∈ es, Fits c e.toSpec)
     (hb : SecBuf.Bound c ((es0.length + es.length) * Spec.entSize c k)) :
     ∃ b', addEntries k enc b es = .ok b' ∧ RelocSec c k b' ∧
-      b'.content = encodeTable ⟨c, enc⟩ k (es0 ++ es.map Entry.toSpec) ∧
+      b'.content = encodeRelTable ⟨c, enc⟩ k (es0 ++ es.map Entry.toSpec) ∧
       ∀ j (hj : j < es.length),
         getEntry enc b' (BitVec.ofNat 64 (es0.length + j)) = .ok (b'.getData, some (normEntry c k es[j])) := by
   obtain ⟨b', e, i, c', t, s, v⟩ := rel_bytes c k enc b hR.inv hR.cls es0 h0 es hb
@@ -565,7 +565,7 @@ theorem roundtrip (c : Cls) (k : RelKind) (enc : Enc) (b : SecBuf) (hR : RelocSe
     rw [hs, normEntry_toSpec, ofNat64_toNat hn, s, hE, v]
     have hsl := slice_flatMap (encodeEntry ⟨c, enc⟩ k) (Spec.entSize c k) (encodeEntry_length ⟨c, enc⟩ k)
       (es0 ++ es.map Entry.toSpec) (es0.length + j) (by simp; omega)
-    unfold encodeTable
+    unfold encodeRelTable
     rw [hsl]
     have hget : (es0 ++ es.map Entry.toSpec)[es0.length + j]'(by simp; omega) = es[j].toSpec := by
       rw [List.getElem_append_right (by omega)]; simp
@@ -576,11 +576,11 @@ theorem roundtrip (c : Cls) (k : RelKind) (enc : Enc) (b : SecBuf) (hR : RelocSe
 /-- **REL tables round-trip** (both classes, both byte orders) -/
 theorem rel_roundtrip (c : Cls) (enc : Enc) (b : SecBuf) (hR : RelocSec c .rel b)
     (hE : b.entSize.toNat = Spec.entSize c .rel)
-    (es0 : List RelocEntry) (h0 : b.content = encodeTable ⟨c, enc⟩ .rel es0) (es : List Entry)
+    (es0 : List RelocEntry) (h0 : b.content = encodeRelTable ⟨c, enc⟩ .rel es0) (es : List Entry)
     (hfit : ∀ e ∈ es, Fits c e.toSpec)
     (hb : SecBuf.Bound c ((es0.length + es.length) * Spec.entSize c .rel)) :
     ∃ b', addEntries .rel enc b es = .ok b' ∧ RelocSec c .rel b' ∧
-      b'.content = encodeTable ⟨c, enc⟩ .rel (es0 ++ es.map Entry.toSpec) ∧
+      b'.content = encodeRelTable ⟨c, enc⟩ .rel (es0 ++ es.map Entry.toSpec) ∧
       ∀ j (hj : j < es.length),
         getEntry enc b' (BitVec.ofNat 64 (es0.length + j)) =
           .ok (b'.getData, some (normEntry c .rel es[j])) :=
@@ -590,11 +590,11 @@ theorem rel_roundtrip (c : Cls) (enc : Enc) (b : SecBuf) (hR : RelocSec c .rel b
     narrowed to 32 bits and sign-extended -/
 theorem rela_roundtrip (c : Cls) (enc : Enc) (b : SecBuf) (hR : RelocSec c .rela b)
     (hE : b.entSize.toNat = Spec.entSize c .rela)
-    (es0 : List RelocEntry) (h0 : b.content = encodeTable ⟨c, enc⟩ .rela es0) (es : List Entry)
+    (es0 : List RelocEntry) (h0 : b.content = encodeRelTable ⟨c, enc⟩ .rela es0) (es : List Entry)
     (hfit : ∀ e ∈ es, Fits c e.toSpec)
     (hb : SecBuf.Bound c ((es0.length + es.length) * Spec.entSize c .rela)) :
     ∃ b', addEntries .rela enc b es = .ok b' ∧ RelocSec c .rela b' ∧
-      b'.content = encodeTable ⟨c, enc⟩ .rela (es0 ++ es.map Entry.toSpec) ∧
+      b'.content = encodeRelTable ⟨c, enc⟩ .rela (es0 ++ es.map Entry.toSpec) ∧
       ∀ j (hj : j < es.length),
         getEntry enc b' (BitVec.ofNat 64 (es0.length + j)) =
           .ok (b'.getData, some (normEntry c .rela es[j])) :=
@@ -807,7 +807,7 @@ theorem set_entry_get (c : Cls) (k : RelKind) (enc : Enc) (b : SecBuf) (hR : Rel
 structure TableSec (c : Cls) (k : RelKind) (enc : Enc) (b : SecBuf) (T : List RelocEntry) : Prop where
   sec : RelocSec c k b
   ent : b.entSize.toNat = Spec.entSize c k
-  tab : b.content = encodeTable ⟨c, enc⟩ k T
+  tab : b.content = encodeRelTable ⟨c, enc⟩ k T
 
 theorem TableSec.count {c k enc b T} (h : TableSec c k enc b T) :
     b.size.toNat / b.entSize.toNat = T.length := by
@@ -825,7 +825,7 @@ theorem TableSec.get {c k enc b T} (h : TableSec c k enc b T) (idx : BitVec 64) 
   obtain ⟨e, h1, h2⟩ := get_refines c k enc b h.sec idx (by rw [h.count]; exact hi)
   refine ⟨e, h1, ?_⟩
   rw [h2, h.ent, h.tab]
-  unfold encodeTable
+  unfold encodeRelTable
   rw [slice_flatMap (encodeEntry ⟨c, enc⟩ k) (Spec.entSize c k) (encodeEntry_length ⟨c, enc⟩ k) T _ hi]
   exact spec_roundtrip ⟨c, enc⟩ k _ hfit
 
@@ -835,7 +835,7 @@ theorem TableSec.set {c k enc b T} (h : TableSec c k enc b T) (idx : BitVec 64) 
   obtain ⟨b', h1, hR', hs, he, hv⟩ := set_entry_frame c k enc b h.sec idx (by rw [h.count]; exact hi) e
   refine ⟨b', h1, hR', by rw [he]; exact h.ent, ?_⟩
   rw [hv, h.ent, h.tab, hy]
-  unfold encodeTable
+  unfold encodeRelTable
   exact wr_flatMap (encodeEntry ⟨c, enc⟩ k) (Spec.entSize c k) (encodeEntry_length ⟨c, enc⟩ k) T _ hi y
 
 /-- the symbol range of a class -/
@@ -1077,7 +1077,7 @@ theorem fresh_reloc (c : Cls) (k : RelKind) (enc : Enc) :
   have he : (BitVec.ofNat 64 (Spec.entSize c k)).toNat = Spec.entSize c k := by
     cases c <;> cases k <;> decide
   refine ⟨⟨Or.inl r, rfl, rfl, by show _ ≤ (BitVec.ofNat 64 _).toNat; rw [he]; exact Nat.le_refl _⟩, he, ?_⟩
-  rw [C07.content_resident r]; simp [SecBuf.view, SecBuf.fresh, encodeTable]
+  rw [C07.content_resident r]; simp [SecBuf.view, SecBuf.fresh, encodeRelTable]
 
 example : RelocSec .c32 .rela { SecBuf.fresh .c32 (shtOf .rela) with entSize := 12 } :=
   (fresh_reloc .c32 .rela .msb).sec
